@@ -443,7 +443,13 @@ InvFns == <<
   \* try / finally inside, logging
   [pre |-> <<Def("f", Fn(<<"k">>, FALSE, <<Try(<<If(Bin("==", Id("k"), I(1)), <<Ret(S("early"))>>, <<>>), Log(Id("k"))>>, FALSE, "", <<>>, TRUE, <<Log(S("fin"))>>), Ret(Id("k"))>>))>>, args |-> << <<I(1)>>, <<I(2)>>, <<I(3)>> >>],
   \* a function that itself calls the host to call another function (nested invokers)
-  [pre |-> <<Def("g", Fn(<<"k">>, FALSE, <<Ret(Bin("+", Id("k"), I(100)))>>)), Def("f", Fn(<<"k">>, FALSE, <<Ret(Call(Id("cbcall"), <<Id("g"), Id("k")>>))>>))>>, args |-> << <<I(1)>>, <<I(2)>>, <<I(3)>> >>]
+  [pre |-> <<Def("g", Fn(<<"k">>, FALSE, <<Ret(Bin("+", Id("k"), I(100)))>>)), Def("f", Fn(<<"k">>, FALSE, <<Ret(Call(Id("cbcall"), <<Id("g"), Id("k")>>))>>))>>, args |-> << <<I(1)>>, <<I(2)>>, <<I(3)>> >>],
+  \* a variadic function that keeps its rest array: the array belongs to the call, not to the caller's argument buffer
+  [pre |-> <<Def("saved", Arr(<<>>)), Def("f", Fn(<<"a", "xs">>, TRUE, <<Asg("saved", Call(Id("append"), <<Id("saved"), Id("xs")>>)), Ret(Id("saved"))>>))>>,
+   args |-> << <<I(1), I(2)>>, <<I(3), I(4), I(5)>>, <<I(6)>> >>],
+  \* a variadic function that writes into its rest array
+  [pre |-> <<Def("f", Fn(<<"xs">>, TRUE, <<AsgI(Id("xs"), I(0), Bin("+", Idx(Id("xs"), I(0)), I(100))), Ret(Id("xs"))>>))>>,
+   args |-> << <<I(1), I(2)>>, <<I(3)>>, <<I(4), I(5), I(6)>> >>]
 >>
 \* each call is wrapped in try/catch so that a thrown error is observed and the history continues
 InvCall(how, as, i) ==
